@@ -137,10 +137,12 @@ def qname(tag, used):
     return tag
 
 
-def render(doc, world, xmldecl=False):
+def render(doc, world, xmldecl=False, encoding='utf-8'):
     """abstract document (the JSON given to the model) -> bytes"""
     out = []
-    if xmldecl:
+    if encoding == 'iso-8859-1':
+        out.append('<?xml version="1.0" encoding="iso-8859-1"?>')
+    elif xmldecl:
         out.append('<?xml version="1.0" encoding="utf-8"?>')
     dtd = doc.get('dtd')
     if dtd is not None:
@@ -183,7 +185,13 @@ def render(doc, world, xmldecl=False):
             stack.append(item[1])
         else:
             out.append(item[1])
-    return ''.join(out).encode('utf-8')
+    text = ''.join(out)
+    for ph_s in ('file', 'http', 'ftp'):
+        if '@URI:' not in text:
+            break
+        for ph_r in TEXT_RES + DTD_RES + MISSING_RES:
+            text = text.replace('@URI:%s:%d@' % (ph_s, ph_r), world.uri((ph_s, ph_r)))
+    return text.encode(encoding)     # 'utf-16' writes a byte order mark
 
 
 def canon_tree(root):
@@ -232,6 +240,32 @@ def build_stack():
         __namespace__ = TNS
         _type_info = [('name', Unicode), ('tag', XmlAttribute(Unicode)), ('note', Unicode)]
 
+    from spyne import AnyDict, AnyXml, AnyHtml, XmlData
+    from lxml import etree as _et
+
+    class Wrap(ComplexModel):
+        __namespace__ = TNS
+        _type_info = [('val', XmlData(Unicode)), ('at', XmlAttribute(Unicode))]
+
+    class Inner(ComplexModel):
+        __namespace__ = TNS
+        _type_info = [('v', Unicode), ('arr', Array(Unicode))]
+
+    class Outer(ComplexModel):
+        __namespace__ = TNS
+        _type_info = [('inner', Inner)]
+
+    def flat(o):
+        if isinstance(o, dict):
+            return ''.join('{%s=%s}' % (k, flat(v)) for k, v in o.items())
+        if isinstance(o, (list, tuple)):
+            return ''.join('[%s]' % flat(v) for v in o)
+        return '' if o is None else str(o)
+
+    def ser(e):
+        # the element as handed over; serialising it writes entity nodes as references (no replacement text)
+        return None if e is None else _et.tostring(e).decode('utf-8', 'replace')
+
     class Svc(ServiceBase):
         @rpc(Unicode, Item, Array(Unicode), _returns=Unicode)
         def echo(ctx, s, item, lst):
@@ -239,6 +273,20 @@ def build_stack():
                    'note': None if item is None else item.note, 'lst': None if lst is None else list(lst)}
             captured.append(rec)
             return 'R[%s|%s|%s|%s|%s]' % (s, rec['name'], rec['tag'], rec['note'], rec['lst'])
+
+        @rpc(AnyDict, AnyXml, AnyHtml, Wrap, Outer, _returns=Unicode)
+        def probe(ctx, d, x, h, w, o):
+            inner = None if o is None else o.inner
+            key = None
+            if isinstance(d, dict) and d.get('key'):
+                key = d['key'][0] if isinstance(d['key'], list) else d['key']
+            rec = {'d': flat(d), 'd.key': key if isinstance(key, str) or key is None else flat(key),
+                   'x': ser(x), 'h': ser(h),
+                   'w.val': None if w is None else w.val, 'w@at': None if w is None else w.at,
+                   'o.v': None if inner is None else inner.v,
+                   'o.arr0': None if inner is None or not inner.arr else inner.arr[0]}
+            captured.append(rec)
+            return 'P[%s|%s|%s|%s|%s|%s|%s]' % (rec['d'], rec['x'], rec['h'], rec['w.val'], rec['w@at'], rec['o.v'], rec['o.arr0'])
 
     return Application, Svc, captured
 
@@ -347,8 +395,10 @@ class Worker:
             return {'crash': type(e).__name__}
 
     def request_bytes(self, q):
-        body = render(q['req']['doc'], self.world, xmldecl=q['req'].get('unicode_decl', False))
-        ctype = 'text/xml; charset=utf-8'
+        enc = q['req'].get('encoding', 'utf-8')
+        body = render(q['req']['doc'], self.world, xmldecl=q['req'].get('unicode_decl', False), encoding=enc)
+        cs = q['req'].get('charset', 'utf-8')       # what the Content-Type header announces: a charset name or None
+        ctype = 'text/xml' + ('; charset=%s' % cs if cs else '')
         if q['req'].get('multipart'):
             # the attachment is named by its Content-ID, or ('cloc') by its Content-Location with an empty Content-ID:
             # the two branches of collapse_swa that join an attachment into the envelope
@@ -1332,6 +1382,56 @@ def measure_sites_behaviour():
     return out, fresh
 
 
+KINDS = ['unicode', 'arrayItem', 'nestedMember', 'xmlData', 'anyDictLeaf', 'anyXml', 'anyHtml']
+
+
+def measure_deliver():
+    """how each kind of value is read from the tree: an internal entity referenced after some text inside a value
+    of that kind, default settings, through the real stack"""
+    global _SVC
+    from spyne import MethodContext
+    from spyne.server import ServerBase
+    if _SVC is None:
+        _SVC = build_stack()
+    Application, Svc, captured = _SVC
+    cls = proto_classes()['xml']
+    app = Application([Svc], TNS, in_protocol=cls(), out_protocol=cls())
+    world = World('/nonexistent', 'probe')
+    ent = dtd([(1, INT(lit('IENT1')))])
+    toks = [T('pre-'), ref(1), T('-post')]
+    rules = {}
+
+    def run(doc):
+        del captured[:]
+        srv = ServerBase(app)
+        ctx = MethodContext(srv, MethodContext.SERVER)
+        ctx.in_string = [render(doc, world)]
+        try:
+            for c in srv.generate_contexts(ctx):
+                if c.in_error is None:
+                    srv.get_in_object(c)
+                if c.in_error is None:
+                    srv.get_out_object(c)
+        except Exception:
+            pass
+        return dict(captured[0]) if captured else None
+    r = run(request_doc('xml', ent, world, text=('s', toks)))
+    obs = {'unicode': None if r is None else r['s']}
+    for pos, (kind, _tag) in PROBE_POS.items():
+        r = run(probe_doc_req('xml', ent, world, pos, toks))
+        obs[kind] = None if r is None else r[{'x.leaf': 'x', 'h.p': 'h'}.get(pos, pos)]
+    for kind, v in obs.items():
+        if v is None:
+            rules[kind] = 'refused'          # the method was not called at all
+        elif 'IENT1' in v:
+            rules[kind] = 'stringValue'
+        elif kind in ('anyXml', 'anyHtml'):
+            rules[kind] = 'element' if '&e1;' in v else 'other'
+        else:
+            rules[kind] = 'textNodesOnly' if v == 'pre-' else 'other'
+    return rules
+
+
 def measure_facts(ctx):
     import logging
     logging.disable(logging.CRITICAL)       # spyne logs every rejected document in full
@@ -1379,6 +1479,7 @@ def measure_facts(ctx):
     f['sites'] = beh + [s_ for s_ in ast_sites if s_['role'] == 'offPath']
     f['astSites'] = [s_ for s_ in ast_sites if s_['role'] != 'offPath']
     f['kwWrites'] = scan.kw_writes()
+    f['deliver'] = measure_deliver()
     f['post'], f['liveAt'] = {}, {}
     for name, cls in classes.items():
         f['post'][name], f['liveAt'][name], ex = measure_post(cls)
@@ -1482,6 +1583,8 @@ def facts17 : Facts17 where
   liveAtRequest := fun p v => match p, v with
 %s
   kwWritesOutsideInit := %d
+  deliver := fun k => match k with
+%s
   lxmlDefault := %s
   lib := lib17
 
@@ -1492,7 +1595,7 @@ end SpyneModel.Generated
        per_proto(plumb), per_proto(lambda p: lean_args(f['ctor'][p])), per_proto(lambda p: lean_kw(f['live'][p])),
        lean_bool(f['kwIsolated']), lean_bool(f['parserPerRequest']), sites, f['xincludeCalls'],
        sum(len(v) for v in f['extra'].values()), per_pv(post), per_pv(lambda p, v: lean_kw(f['liveAt'][p][v])),
-       len(f['kwWrites']), lean_kw(lib['lxmlDefault']))
+       len(f['kwWrites']), '\n'.join('    | .%s => .%s' % (k, f['deliver'][k]) for k in KINDS), lean_kw(lib['lxmlDefault']))
 
 
 
@@ -1709,7 +1812,7 @@ ATTR_POS = ['tag', 'echo@x', 's@x', 'item@x', 'name@x', 'lst@x', 'lst0@x']
 SOAP_ATTR_POS = ['env@x', 'body@x']
 
 
-def request_doc(proto, d, world, text=None, attr=None, many_attrs=None, omit_tag=False):
+def request_doc(proto, d, world, text=None, attr=None, many_attrs=None, omit_tag=False, nonascii=False):
     """a valid echo request with `text` = (position, tokens) and/or `attr` = (position, pieces) filled in"""
     tp, tt = text if text else (None, None)
     ap, av = attr if attr else (None, None)
@@ -1729,12 +1832,36 @@ def request_doc(proto, d, world, text=None, attr=None, many_attrs=None, omit_tag
         return tt if tp == pos else []
     body = [O('{%s}echo' % TNS, at('echo'))] + slot('echo.pre') + leaf('s', 's', 'hello')
     body += [O('{%s}item' % TNS, at('item', [] if omit_tag else [('tag', av if ap == 'tag' else [lit('tg')])]))] + slot('item.pre')
-    body += leaf('name', 'name', 'nm') + leaf('note', 'note', 'nt') + [C]
+    body += leaf('name', 'name', 'nm') + leaf('note', 'note', 'nt\xe9' if nonascii else 'nt') + [C]
     body += [O('{%s}lst' % TNS, at('lst'))] + slot('lst.pre') + leaf('string', 'lst0', 'l0') + leaf('string', 'lst1', 'l1') + [C]
     body += slot('echo.post') + [C]
     if proto != 'xml':
         ns = NS_S11 if proto == 'soap11' else NS_S12
         body = [O('{%s}Envelope' % ns, at('env'))] + slot('env.pre') + [O('{%s}Body' % ns, at('body'))] + body + slot('body.post') + [C, C]
+    return mkdoc(d, body, world)
+
+
+PROBE_POS = {          # position -> (kind, tag of the leaf element that carries the value)
+    'd.key': ('anyDictLeaf', 'key'), 'x.leaf': ('anyXml', 'leaf'), 'h.p': ('anyHtml', 'p'),
+    'w.val': ('xmlData', '{%s}w' % TNS), 'o.v': ('nestedMember', '{%s}v' % TNS), 'o.arr0': ('arrayItem', '{%s}string' % TNS)}
+
+
+def probe_doc_req(proto, d, world, pos=None, toks=None):
+    """a valid request of the `probe` method (AnyDict, AnyXml, AnyHtml, XmlData, nested class, array) with
+    `toks` as the character data of the leaf at `pos`"""
+    def c(p_, default):
+        return toks if pos == p_ else [T(default)]
+    t = lambda n: '{%s}%s' % (TNS, n)
+    body = [O(t('probe'))]
+    body += [O(t('d')), O('key')] + c('d.key', 'kv') + [C, O('other'), T('plain'), C, C]
+    body += [O(t('x')), O('any'), O('leaf')] + c('x.leaf', 'xv') + [C, C, C]
+    body += [O(t('h')), O('div'), O('p')] + c('h.p', 'hv') + [C, C, C]
+    body += [O(t('w'), [('at', [lit('av')])])] + c('w.val', 'wv') + [C]
+    body += [O(t('o')), O(t('inner')), O(t('v'))] + c('o.v', 'ov') + [C, O(t('arr')), O(t('string'))] + c('o.arr0', 'a0') + [C, C, C, C]
+    body += [C]
+    if proto != 'xml':
+        ns = NS_S11 if proto == 'soap11' else NS_S12
+        body = [O('{%s}Envelope' % ns), O('{%s}Body' % ns)] + body + [C, C]
     return mkdoc(d, body, world)
 
 
@@ -1810,6 +1937,38 @@ def request_corpus(ctx, lib, world):
                         cases.append(({'payload': label, 'pos': pos, 'kind': kind, 'expect': exp, 'validator': VNAME[val]},
                                       {'op': 'handle', 'proto': proto, 'tr': tr, 'validator': val,
                                        'req': {'doc': doc, 'multipart': mp, 'unicode_decl': False}}))
+        # values that other code takes out of the tree: AnyDict, AnyXml, AnyHtml, XmlData, nested members, array items
+        for label, d, toks, pieces, expect in pl:
+            if toks is None or label.split(':')[0] not in ('internal', 'ext-general', 'ext-in-internal', 'ext-param', 'ext-subset',
+                                                           'chain', 'bomb', 'loop', 'undeclared') \
+                    or label in ('bomb:nesting',) or 'noref' in label or 'attlist' in label:
+                continue
+            for pos in PROBE_POS:
+                doc = probe_doc_req(proto, d, world, pos, [T('pre-')] + toks)
+                for tr in ('server', 'wsgi'):
+                    cases.append(({'payload': label, 'pos': pos, 'kind': 'text', 'expect': 'reject' if expect == 'reject' else 'any',
+                                   'deliver': PROBE_POS[pos]},
+                                  {'op': 'handle', 'proto': proto, 'tr': tr, 'req': {'doc': doc, 'multipart': False, 'unicode_decl': False}}))
+        # the document ENCODING: non-UTF-8 bytes (ISO-8859-1 with a declaration and a non-ASCII character, UTF-16 with
+        # a byte order mark), announced or not by the Content-Type, crossed with the hostile kinds
+        variants = [('server', e, None) for e in ('iso-8859-1', 'utf-16')] + \
+            [('wsgi', 'utf-8', None), ('wsgi', 'iso-8859-1', None), ('wsgi', 'iso-8859-1', 'iso-8859-1'), ('wsgi', 'iso-8859-1', 'utf-8'),
+             ('wsgi', 'utf-16', None), ('wsgi', 'utf-16', 'utf-16'), ('wsgi', 'utf-16', 'utf-8')]
+        for label, d, toks, pieces, expect in pl:
+            if not (expect == 'reject' or label in ('benign', 'internal', 'ext-general:file', 'chain:2x2')):
+                continue
+            for kind, pos, fill in (('text', 's', toks), ('attr', 'tag', pieces)):
+                if fill is None or (label == 'benign' and kind == 'attr'):
+                    continue
+                doc = request_doc(proto, d, world, text=(pos, fill) if kind == 'text' else None,
+                                  attr=(pos, fill) if kind == 'attr' else None, nonascii=True)
+                for tr, enc, cs in variants:
+                    cases.append(({'payload': label, 'pos': pos, 'kind': kind + '+' + enc, 'expect': 'reject' if expect == 'reject' else 'any',
+                                   'enc': '%s/%s' % (enc, cs or 'no-charset'),
+                                   't2skip': enc != 'utf-8' and cs == 'utf-8'},
+                                  {'op': 'handle', 'proto': proto, 'tr': tr,
+                                   'req': {'doc': doc, 'multipart': False, 'encoding': enc, 'charset': cs,
+                                           'unicode_decl': tr == 'wsgi' and enc == 'iso-8859-1' and cs == 'iso-8859-1'}}))
         # huge attribute counts, an encoding declaration over a charset-announcing transport
         for elem in ('echo', 's', 'item', 'lst0'):
             doc = request_doc(proto, None, world, many_attrs=(elem, 4000))
@@ -2030,12 +2189,22 @@ def _run_cases(ctx, f, lib, pool):
     ctx.log('implementation side done (%.1fs)' % (time.time() - t))
     t = time.time()
     MQ = [q for q, _ in KQ] + [dict(q, env=env0, kw=DEFAULT_KW if q['kw'] == 'defaults' else q['kw']) for q in Q]
+    # what user code receives for an attacked leaf, per kind of value
+    DQ = []
+    for i, (q, meta) in enumerate(zip(Q, META)):
+        dl = meta.get('deliver') or (('unicode', '{%s}s' % TNS) if q['op'] == 'handle' and meta.get('pos') == 's'
+                                     and meta.get('kind') == 'text' and q['kw'] == 'defaults' else None)
+        if dl and dl[0] not in ('anyXml', 'anyHtml') and meta['payload'].split(':')[0] in (
+                'internal', 'ext-general', 'ext-in-internal', 'ext-param', 'ext-subset', 'chain', 'benign'):
+            DQ.append((i, dl))
+            MQ.append({'op': 'deliver', 'kind': dl[0], 'tag': dl[1], 'doc': q['req']['doc'], 'kw': DEFAULT_KW, 'env': env0})
     # the model does not depend on the validator: identical queries are evaluated once
     for mq in MQ:
         mq.pop('validator', None) if mq.get('op') == 'handle' else None
         mq.pop('history', None)
-        if mq.get('op') == 'handle' and mq['req'].get('multipart') == 'cloc':
-            mq['req'] = dict(mq['req'], multipart=True)
+        if mq.get('op') == 'handle':
+            mq['req'] = {'doc': mq['req']['doc'], 'multipart': bool(mq['req'].get('multipart')),
+                         'unicode_decl': bool(mq['req'].get('unicode_decl'))}
     uniq, order = {}, []
     for mq in MQ:
         k_ = core.canon(mq)
@@ -2051,7 +2220,7 @@ def _run_cases(ctx, f, lib, pool):
     for m in M:
         if 'driver_error' in m:
             raise core.Infra('driver error: %r' % (m,))
-    MK, M = M[:len(KQ)], M[len(KQ):]
+    MK, M, MD = M[:len(KQ)], M[len(KQ):len(KQ) + len(Q)], M[len(KQ) + len(Q):]
     # an access to the canary directory or socket under default settings is confirmed by running the same
     # request again: the canary files live in /verif/.scratch, which other processes may walk (rsync of /verif)
     def fetch_mismatch(q, r, m):
@@ -2076,6 +2245,20 @@ def _run_cases(ctx, f, lib, pool):
         if impl != mod:
             ctx.disagree('kwargs', q, impl, mod)
 
+    # ---- T2 deliver
+    for (i, dl), md in zip(DQ, MD):
+        r = R[i]
+        if 'ok' not in md or not r.get('captured'):
+            continue
+        field = 's' if dl[0] == 'unicode' else META[i]['pos']
+        got = r['captured'][0].get(field)
+        ctx.case({'op': 'deliver', 'kind': dl[0], 'payload': META[i]['payload'], 'proto': Q[i]['proto'], 'tr': Q[i]['tr'],
+                  'val': Q[i].get('validator'), 'mp': Q[i]['req'].get('multipart')})
+        ctx.hit('op:deliver')
+        ctx.hit('deliver:' + dl[0])
+        if cps(got or '') != md['ok']:
+            ctx.disagree('deliver', {'kind': dl[0], 'case': META[i]['payload'] + '@' + META[i]['pos'], 'proto': Q[i]['proto'],
+                                     'doc': Q[i]['req']['doc']}, got, uncps(md['ok']))
     secrets = w0.secrets()
     for i, (q, r, m, meta) in enumerate(zip(Q, R, M, META)):
         wi = i % pool.n
@@ -2110,9 +2293,15 @@ def _run_cases(ctx, f, lib, pool):
         ctx.hit('proto:%s/%s%s' % (q['proto'], q['tr'], ('/multipart' + ('-cloc' if q['req']['multipart'] == 'cloc' else '')) if q['req']['multipart'] else ''))
         ctx.hit('payload:' + meta['payload'].split(':')[0])
         ctx.hit('validator:%s' % (q.get('validator') or 'none'))
+        if meta.get('enc'):
+            ctx.hit('encoding:' + meta['enc'])
+        if meta.get('deliver'):
+            ctx.hit('kind:' + meta['deliver'][0])
         impl = impl_handle_canon(r, world)
         mod = model_handle_canon(m)
-        if impl is None:
+        if meta.get('t2skip'):
+            ctx.hit('handle:charset-mismatch-not-compared')
+        elif impl is None:
             ctx.hit('handle:failed-after-parse:' + str(r.get('crash') or r.get('fault')))
         else:
             ctx.hit('handle:' + next(iter(impl)))
@@ -2144,11 +2333,20 @@ def _run_cases(ctx, f, lib, pool):
                         'request %s: content of an external resource reached user code or the response' % desc, rep)
         # entity substitution is off: replacement text must not be substituted into element text
         for c in r['captured']:
-            vals = [c['s'], c['name'], c['note']] + list(c['lst'] or [])
-            if any(v and 'IENT' in v for v in vals):
+            # everything user code received, except values of XML attributes (libxml2 substitutes internal entities
+            # inside attribute values whatever resolve_entities says; see NOTES)
+            vals = []
+            for k_, v_ in c.items():
+                if k_ in ('tag', 'w@at'):
+                    continue
+                vals += [x_ for x_ in (v_ if isinstance(v_, list) else [v_]) if isinstance(x_, str)]
+            if any('IENT' in v for v in vals):
                 ctx.finding('t3:text-entity-expanded:%s' % site,
-                            'request %s: an entity reference in element text was replaced by its replacement text %r'
-                            % (desc, [v[:30] for v in vals if v and 'IENT' in v][:1]), rep)
+                            'request %s: an entity reference in element content was replaced by its replacement text in what '
+                            'user code received: %r' % (desc, [v[:40] for v in vals if 'IENT' in v][:1]), rep)
+        if meta['kind'].startswith('text') and 'IENT' in r['resp']:
+            ctx.finding('t3:text-entity-expanded:%s' % site,
+                        'request %s: the replacement text of an entity referenced in element content is in the response' % desc, rep)
         if r['wall'] > TIME_LIMIT_S or r['rss_kb'] > RSS_LIMIT_KB:
             ctx.finding('t3:resource:%s' % site,
                         'request %s took %.2fs and %d kB of additional peak RSS' % (desc, r['wall'], r['rss_kb']), rep)
